@@ -22,6 +22,7 @@ from spec import cdb_layouts as L
 from . import common as K
 
 MOD = "checks.c09_threads"
+MAX_SCHEDULES = 16
 DEBUG = []
 LABEL = "no line-level interleaving of the two threads changes what either observes"
 
@@ -113,7 +114,7 @@ def _encode(steps):
                     DEBUG.append((t, loc[1], vk, wv, site, steps[u][j]["site"]))
     if disj:
         s.add(z3.Or(*disj))
-    return s, clk, len(disj)
+    return s, clk, len(disj), disj
 
 
 # ------------------------------------------------------------------ plain-python replay of a schedule
@@ -233,26 +234,43 @@ def h_threads(ctx, a, b):
         _ex._CUR = saved
     ctx.note("events", [sum(len(s["ev"]) for s in st) for st in steps])
     ctx.note("item_events", [sum(1 for s in st for e in s["ev"] if str(e[1][1]).startswith("[")) for st in steps])
-    solver, clk, nd = _encode(steps)
+    solver, clk, nd, disj = _encode(steps)
     ctx.note("rf_candidates", nd)
-    ctx.note("rf_sample", [repr(x)[:300] for x in DEBUG[:4]])
     import z3
     if nd == 0:
         solver.add(z3.BoolVal(False))  # empty disjunction: no read can take a differing foreign value
-    r = solver.check()
-    ctx.ex.stats.solver_calls += 1
-    if r == z3.unsat:
-        ctx.check(LABEL, True, decided_by_solver=True)
-        return
-    if r != z3.sat:
-        ctx.check(LABEL, ctx.ex.branch(z3.Bool("unknown_interleaving")) and False)  # inconclusive marker
-        return
-    m = solver.model()
-    order = sorted(((m.eval(clk[t][k], model_completion=True).as_long(), t, k) for t in (0, 1) for k in range(len(clk[t]))))
     repo = loader.REPO.rstrip("/")
-    sched = [[t, steps[t][k]["site"][0][len(repo):].lstrip("/"), steps[t][k]["site"][1]] for _, t, k in order]
-    ctx.record("schedule", sched)
-    ctx.check(LABEL, False, "schedule of %d steps" % len(sched))
+    benign = 0
+    for attempt in range(MAX_SCHEDULES):
+        r = solver.check()
+        ctx.ex.stats.solver_calls += 1
+        if r == z3.unsat:
+            ctx.note("benign_foreign_reads_refuted_by_replay", benign)
+            ctx.check(LABEL, True, decided_by_solver=True)
+            return
+        if r != z3.sat:
+            break
+        m = solver.model()
+        order = sorted(((m.eval(clk[t][k], model_completion=True).as_long(), t, k) for t in (0, 1) for k in range(len(clk[t]))))
+        sched = [[t, steps[t][k]["site"][0][len(repo):].lstrip("/"), steps[t][k]["site"][1]] for _, t, k in order]
+        # does this interleaving change what a thread observes?  (a read of a different but equivalent value is benign)
+        saved, _ex._CUR = _ex._CUR, None
+        try:
+            trace.restore(tr)
+            got, dead = run_schedule(progs, sched, repo, timeout=5.0)
+            trace.restore(tr)
+        finally:
+            _ex._CUR = saved
+        if got != solo and not dead:
+            ctx.record("schedule", sched)
+            ctx.check(LABEL, False, "schedule of %d steps: solo=%r interleaved=%r" % (len(sched), solo, got))
+            return
+        benign += 1
+        # exclude the reads-from pairs this model realises and ask for another interleaving
+        solver.add(z3.And(*[z3.Not(d) for d in disj if z3.is_true(m.eval(d, model_completion=True))]))
+    # candidates left but none confirmed within the cap (or solver unknown): inconclusive, not a pass
+    ctx.note("benign_foreign_reads_refuted_by_replay", benign)
+    ctx.inconclusive(LABEL, "%d candidate interleavings replayed without effect; more remain (cap %d)" % (benign, MAX_SCHEDULES))
 
 
 def obligations(tier):
